@@ -264,6 +264,12 @@ func Generate(profile string, seed uint64, tier string) (*Scenario, error) {
 		genC07(g, sc, tier)
 		sc.Faults, sc.Cuts = nil, nil
 		delete(sc.Knobs, "allPoints")
+		// public namespaces given, replaced or withdrawn (an empty list) after the creation
+		for k := g.Range(0, 2); k > 0 && len(sc.Ops) > 0; k-- {
+			at := g.Intn(len(sc.Ops)) + 1
+			op := Op{K: "setPublicNamespaces", DS: g.Pick(sc.Datasets), A: [][]any{{ExE, ExS}, {ExE}, {}, {}}[g.Intn(4)]}
+			sc.Ops = append(sc.Ops[:at:at], append([]Op{op}, sc.Ops[at:]...)...)
+		}
 		// settings on (re-)created datasets
 		for i := range sc.Ops {
 			if sc.Ops[i].K == "createDataset" {
